@@ -66,7 +66,14 @@ def check_hist(case, iout, ires, spec_text, want=("answers", "output", "exhauste
         seg_out = outs[k] if k < len(outs) else ""
         name = op[0]
         if o == "panic":
-            yield ("answers", "operation %s panicked" % sx_text(op), {}); return
+            # a panic is a violation only where the reference search of that query is defined and finishes
+            try:
+                q = int(op[1]); cur = sp.get(q, [])
+                s0 = cur[builds.get(q, 0) + (1 if name == "build" else 0)] if name == "build" else cur[builds[q]]
+                if s0[0] == "trace": yield ("answers", "operation %s panicked although the reference search finishes" % sx_text(op), {})
+            except Exception:
+                pass
+            return
         if o == "fuel": return
         if name == "build":
             q = int(op[1]); builds[q] = builds.get(q, -1) + 1; pos[q] = 0; done[q] = False
